@@ -99,8 +99,11 @@ class FGen:
         elif k < 0.65:
             self.feats.add("escape" if not raw else "raw-backslash")
             t = self.pick(ESCAPES)
-            if raw and t in ("\\'", '\\"'):
-                t = "\\d"
+            if raw:
+                # in a raw literal a backslash is text: '\N{a}' is '\N' + a field, '\{a}' is '\' + a field
+                t = self.pick(["\\d", "\\N{a}", "\\N{a!r}", "\\{a}", "\\x41", "\\n{b}", "\\\\", "\\N"])
+                if "{" in t:
+                    self.feats.add("field")
         elif k < 0.8:
             self.feats.add("doubled-brace")
             t = self.pick(["{{", "}}", "{{}}", "{{a}}", "}}{{", "{{{{"])
